@@ -61,8 +61,15 @@ func (u *Unit) heapResolve(heaps map[string]Term, epoch int, layer *heapLayer, k
 	prev := u.heapResolve(layer.prevHeaps, layer.prevEpoch, layer.prevLayer, key, vs)
 	h := u.fresh("Hc!"+key, hs)
 	l := Sym("l!", SLoc)
+	// the defining facts of the lazily materialised heap are kept with its declaration: the symbol is memoised in a
+	// map that can outlive a speculative pass, which discards facts but keeps declarations
+	nf := len(u.facts)
 	u.assume(True, Forall([]Term{l}, Implies(Le(Obj(l), layer.allocOld), Eq(Select(h, l, vs), Select(prev, l, vs))), []Term{Select(h, l, vs)}))
 	u.heapWF(h, vs, layer.allocNew)
+	for _, f := range u.facts[nf:] {
+		u.cmds = append(u.cmds, "(assert "+f+")")
+	}
+	u.facts = u.facts[:nf]
 	heaps[key] = h
 	return h
 }
